@@ -1,0 +1,178 @@
+//go:build verif
+
+package runner
+
+// Scheduling-point hook for the verification harness (build tag verif only).
+//
+// When VERIF_C06_TRACE names a file, every scheduling point of Run /
+// runAnalyzers / genericHandle appends one line
+//
+//	kind \t instance \t action \t trigger \t flag \t deps
+//
+// to it. When VERIF_C06_YIELD is a non-zero number, every point additionally
+// yields the processor or sleeps for a few microseconds, chosen by a hash of
+// that number and the point, to widen the set of schedules a run explores.
+// With neither variable set the hook does nothing.
+//
+// Placement contract (the trace validator relies on it): points describing an
+// acquire/receive are logged after the operation, points describing a
+// release/decrement are logged before it, so that the logged order is a
+// linearisation of the real one.
+
+import (
+	"bufio"
+	"os"
+	"runtime"
+	"strconv"
+	"strings"
+	"sync"
+	"time"
+)
+
+var verifState struct {
+	once  sync.Once
+	mu    sync.Mutex
+	w     *bufio.Writer
+	f     *os.File
+	insts map[action]int
+	recvd map[action]bool
+	rng   uint64 // seed, read-only after init
+	yield bool
+}
+
+func verifInit() {
+	s := &verifState
+	if path := os.Getenv("VERIF_C06_TRACE"); path != "" {
+		f, err := os.OpenFile(path, os.O_CREATE|os.O_APPEND|os.O_WRONLY, 0o644)
+		if err == nil {
+			s.f = f
+			s.w = bufio.NewWriterSize(f, 1<<16)
+			s.insts = map[action]int{}
+			s.recvd = map[action]bool{}
+		}
+	}
+	if y := os.Getenv("VERIF_C06_YIELD"); y != "" {
+		if n, err := strconv.ParseUint(y, 10, 64); err == nil && n != 0 {
+			s.rng = n
+			s.yield = true
+		}
+	}
+}
+
+func verifName(a action) string {
+	switch a := a.(type) {
+	case nil:
+		return "-"
+	case *packageAction:
+		if a.Package == nil {
+			return "ROOT"
+		}
+		return a.Package.ID
+	case *analyzerAction:
+		if a.Analyzer == nil {
+			return "ROOT"
+		}
+		return a.Analyzer.Name
+	default:
+		return "?"
+	}
+}
+
+func verifPoint(kind string, root, a, t action, flag bool) {
+	s := &verifState
+	s.once.Do(verifInit)
+	if s.w == nil && !s.yield {
+		return
+	}
+	if kind == "sent" && flag && s.w != nil {
+		// Unbuffered queue: the send completed, so the dispatcher has
+		// received t; wait until it has logged that, so that the logged
+		// order agrees with the rendezvous.
+		for {
+			s.mu.Lock()
+			ok := s.recvd[t]
+			s.mu.Unlock()
+			if ok {
+				break
+			}
+			runtime.Gosched()
+		}
+	}
+	var r uint64
+	if s.yield {
+		// The decision is a pure function of the seed and the point, so
+		// that yield-only mode shares no memory between goroutines (and
+		// therefore adds no happens-before edges a race detector would
+		// see).
+		r = s.rng
+		for _, str := range [3]string{kind, verifName(a), verifName(t)} {
+			for i := 0; i < len(str); i++ {
+				r = (r ^ uint64(str[i])) * 0x100000001B3
+			}
+			r = (r ^ 0xff) * 0x100000001B3
+		}
+		// splitmix64 finaliser
+		r += 0x9E3779B97F4A7C15
+		r = (r ^ (r >> 30)) * 0xBF58476D1CE4E5B9
+		r = (r ^ (r >> 27)) * 0x94D049BB133111EB
+		r ^= r >> 31
+	}
+	if s.w != nil {
+		s.mu.Lock()
+		id, ok := s.insts[root]
+		if !ok {
+			id = len(s.insts) + 1
+			s.insts[root] = id
+		}
+		var sb strings.Builder
+		sb.WriteString(kind)
+		sb.WriteByte('\t')
+		sb.WriteString(strconv.Itoa(id))
+		sb.WriteByte('\t')
+		sb.WriteString(verifName(a))
+		sb.WriteByte('\t')
+		sb.WriteString(verifName(t))
+		sb.WriteByte('\t')
+		switch kind {
+		case "done":
+			flag = a.IsFailed()
+		case "recv":
+			s.recvd[a] = true
+		}
+		if flag {
+			sb.WriteByte('1')
+		} else {
+			sb.WriteByte('0')
+		}
+		sb.WriteByte('\t')
+		if kind == "recv" {
+			for i, d := range a.Deps() {
+				if i > 0 {
+					sb.WriteByte(';')
+				}
+				sb.WriteString(verifName(d))
+			}
+		}
+		sb.WriteByte('\n')
+		s.w.WriteString(sb.String())
+		if kind == "end" {
+			// the process may exit right after the last action ended
+			s.w.Flush()
+		}
+		s.mu.Unlock()
+	}
+	if s.yield {
+		switch r % 16 {
+		case 8, 9, 10, 11:
+			runtime.Gosched()
+		case 12:
+			runtime.Gosched()
+			runtime.Gosched()
+			runtime.Gosched()
+		case 13, 14:
+			time.Sleep(10 * time.Microsecond)
+		case 15:
+			time.Sleep(100 * time.Microsecond)
+		}
+	}
+}
